@@ -207,7 +207,7 @@ pub fn device_path() -> BoxedStrategy<String> {
 }
 
 pub fn run(ctx: &Ctx) -> Report {
-    let cases = ctx.tier.pick(8_000u32, 200_000u32);
+    let cases = ctx.tier.pick(64_000u32, 640_000u32);
     let shards = 16;
     let mut total = run_shards(shards, |shard| {
         let mut st = Stats::new();
